@@ -54,6 +54,64 @@ CLAIMED = {
         'and evaluated in finite models.',
         'Trusted: vlib/ref.py, vlib/model.py (self-tested). Address reuse is CPython-specific.',
         'DESIGN.md §2 C03'),
+    'C04': (
+        'differential testing of macro.eval against the checked macro.expand on argument/premise triples harvested from '
+        'replayed library proofs and on their mutations',
+        'Exploration. Every macro step of the final proof of (a sample of / all) library theorems with recorded steps is '
+        're-run two ways in its own theory context: one-step evaluation, and expansion checked by theory.check_proof at the '
+        'default trust level behind placeholder premises; mutated triples (premises permuted, dropped, duplicated, '
+        'weakened, replaced; theorem names and term arguments replaced) probe inputs no recorded proof contains. Covers '
+        'the macros the library uses (18 in the quick corpus); others are uncovered and listed in the evidence.',
+        'Both paths are the repository\'s own code (differential oracle); comparison of sequents by the independent '
+        'alpha-equivalence of vlib/ref.py. Inputs on which no expansion is produced are outside the statement.',
+        'DESIGN.md §2 C04, §5'),
+    'C08': (
+        'Hypothesis-generated erasures of well-typed terms (and ill-typed skeletons) checked by a validity predicate '
+        '(reference type checker, shape, annotations, instances) and by the inverse (recover the original)',
+        'Exploration. Thousands of skeletons over the signatures of theories list and real, built with None type fields '
+        'exactly as the parser builds them under drawn erasure masks and variable contexts; every returned term is '
+        'type-checked by the reference calculus, compared in shape and annotations with the skeleton, checked for '
+        'constants at instances of their declared types and for leftover internal type variables, and compared with the '
+        'original term when the skeleton is an erasure; failures must be TypeInferenceException/TheoryException.',
+        'Trusted: vlib/ref.py typing, vlib/libsig.py (declared instances of overloaded constants).',
+        'DESIGN.md §2 C08'),
+    'C09': (
+        'Hypothesis-generated (pattern, target, seed) triples with targets constructed by instantiating the pattern in an '
+        'independent calculus; returned instantiations applied and compared modulo beta-eta by the reference calculus',
+        'Exploration. First-order, Miller, repeated, polymorphic, heuristic-branch and seeded patterns against targets that '
+        'are exact instances, beta-normalised instances, one-point mutations, unrelated terms and terms of another type; a '
+        'successful match must instantiate the pattern to the target (reference beta-eta normal forms), extend the seed '
+        'and leave the caller\'s object untouched; first-order matching must succeed on exact instances.',
+        'Trusted: vlib/ref.py (substitution, beta/eta normal forms; self-tested).',
+        'DESIGN.md §2 C09'),
+    'C13': (
+        'Hypothesis-generated editing histories (recorded steps, search suggestions, perturbations; live state or copy) '
+        'over ProofState with invariants checked after every completed operation',
+        'Exploration. Walks start from library theorems with recorded proofs (theories from logic upwards); after every '
+        'completed op a full re-check must succeed with gaps = sorry lines, the last line must be the original sequent, '
+        'ids must equal positions and citations must name earlier visible lines, a complete proof must pass with gaps '
+        'disallowed, export_proof/parse_proof must give identical exported lines and the same check result, and the '
+        'fingerprints of all earlier copies must be unchanged.',
+        'Trusted: the structural checks in vlib/edit_lib.py; the kernel checker for re-checks. Goals are library goals.',
+        'DESIGN.md §2 C13, §5'),
+    'C14': (
+        'every entry of search_method on sampled (state, gap, facts) queries applied to a copy with open parameters '
+        'supplied; effect compared with the advertisement',
+        'Exploration. States are prefixes of recorded library proofs; each returned suggestion must apply or ask for named '
+        'parameters (never fail outright), leave only advertised goals open, close the gap when it advertises none, and '
+        'produce the advertised facts.',
+        'Trusted: parameter supply of vlib/edit_lib.py (fresh names, variables/numerals of the required type); failures '
+        'with harness-supplied parameters are reported only after three different supplies fail.',
+        'DESIGN.md §2 C14, §5'),
+    'C17': (
+        'exhaustive enumeration of short merge sequences + Hypothesis op lists (merge/test/explain interleavings, '
+        'permutations) against a naive congruence-closure fixpoint, an explanation replayer and the kernel checker',
+        'Exploration. Every sequence of <=3 equations over 4 constants (quick) is enumerated with all queries; random op '
+        'lists over 8 constants and the HOL wrapper over curried terms of depth <=3; test must agree with the naive closure '
+        'after every step and be order-independent, explanations must replay from merged equations only, HOL proofs must '
+        'be accepted with gaps disallowed, conclude the queried equation and use only merged equations as hypotheses.',
+        'Trusted: the naive closure and replayer in props/c17_congc.py (cross-checked against z3 EUF at start).',
+        'DESIGN.md §2 C17'),
 }
 
 NOT_YET = {
